@@ -275,10 +275,15 @@ def run(ctx) -> None:
     length = 60 if thorough else 40
     traces, rtraces = [], []
     for i in range(nls):
-        with lsreplay.watchdog(10):
+        if lsdrive._Lib.timeouts >= 5:        # calls that never return: enough recorded to report it
+            ctx.note("trace recording stopped early: 5 public calls did not return")
+            break
+        with lsreplay.watchdog(2):
             traces.append(lstrace.record_ls(ctx.seed * 100003 + i, lsdrive.KINDS[i % 3], nelem=8, ncur=3, length=length))
     for i in range(nrec):
-        with lsreplay.watchdog(10):
+        if lsdrive._Lib.timeouts >= 5:
+            break
+        with lsreplay.watchdog(2):
             rtraces.append(lstrace.record_rec(ctx.seed * 100019 + i, nelem=4, length=30 if not thorough else 45))
     ctx.extra["trace_record_s"] = round(time.time() - t0, 1)
     # observed traces of the behaviours that disagreed in 2 are classified by the same specification
